@@ -31,6 +31,7 @@ type Obligation struct {
 	groundLevel int
 	famSlice bool // keep only definitions about the goal's heap components
 	caseSub *mergeCase
+	eqProp  bool // rewrite with the asserted definitional equalities  read == constant  first
 	Block   *ssa.BasicBlock // block of the program point (nil: unknown)
 	// result
 	Res *SolveResult
@@ -459,7 +460,13 @@ func (g *Gen) havocAllExcept(st *State, why string, keep func(string) bool) {
 	}
 	// the cell of a local variable that this function allocated and has not let escape
 	// (captured only by a closure it defers itself) is out of every callee's reach
-	for r, ty := range g.cellTy {
+	cells := make([]*Term, 0, len(g.cellTy))
+	for r := range g.cellTy {
+		cells = append(cells, r)
+	}
+	sort.Slice(cells, func(i, j int) bool { return cells[i].Name < cells[j].Name })
+	for _, r := range cells {
+		ty := g.cellTy[r]
 		if !g.freshRefs[r] {
 			continue
 		}
@@ -639,7 +646,12 @@ func (g *Gen) sentinel(t *Term) {
 	}
 	g.assume(Ne(t, IntLit(0)))
 	g.assume(g.errIs(t, t))
+	others := make([]*Term, 0, len(g.sentinels))
 	for o := range g.sentinels {
+		others = append(others, o)
+	}
+	sort.Slice(others, func(i, j int) bool { return others[i].Name < others[j].Name })
+	for _, o := range others {
 		g.assume(Ne(t, o))
 		g.assume(Not(g.errIs(t, o)))
 		g.assume(Not(g.errIs(o, t)))
@@ -819,9 +831,13 @@ func (g *Gen) strLit(s string) *Term {
 	}
 	t := Const(fmt.Sprintf("vp_strlit!%q", s), SStr)
 	// distinct from all other literals seen so far and from ""
-	for o, ot := range g.strLits {
-		_ = o
-		g.assume(Ne(t, ot))
+	lits := make([]string, 0, len(g.strLits))
+	for o := range g.strLits {
+		lits = append(lits, o)
+	}
+	sort.Strings(lits)
+	for _, o := range lits {
+		g.assume(Ne(t, g.strLits[o]))
 	}
 	g.assume(Ne(t, emptyStr))
 	g.assume(Eq(App("vp_strlen", SInt, t), IntLit(int64(len(s)))))
